@@ -704,7 +704,117 @@ def check_registry(ctx) -> None:
                       f'conversion label the number with the wrong unit', fact=f'declared {us}')
 
 
+# ------------------------------------------------------------------------------------------------- J4 writers are read-only
+COPYING = ('np.array', 'np.copy', 'numpy.array', 'list', 'tuple', 'copy.copy', 'copy.deepcopy', 'pd.DataFrame', 'pd.Series', 'np.zeros',
+           'np.ones', 'np.full', 'np.empty', 'np.linspace', 'np.arange', 'range', 'len', 'float', 'int', 'str', 'round', 'sum', 'max', 'min',
+           'np.max', 'np.min', 'np.average', 'np.mean', 'np.sum', 'np.round', 'np.multiply', 'np.divide', 'np.add', 'np.subtract', 'abs')
+MUTATORS = ('sort', 'reverse', 'append', 'extend', 'insert', 'pop', 'clear', 'fill', 'resize', 'itemset', 'put', 'remove', 'update', 'setdefault')
+
+
+def check_writers_read_only(ctx) -> None:
+    """The JSON is dumped after the report (and the rich/HTML report) is written.  Everything that runs in between - the writers and
+    the module-level helpers they call - must leave the output values alone: no store to a `.value`, and no in-place operation on a
+    local that may share storage with one (defined from an expression mentioning `.value` and not through a copying constructor)."""
+    repo = ctx.repo
+    cg = get_callgraph(repo)
+    roots = []
+    for cn, meth, suffix in WRITERS:
+        if repo.has_module(suffix) and cn not in INFO_ONLY:
+            roots.append(repo.method(cn, meth, suffix))
+    ctx.require(roots, 'no report writer found')
+    writer_modules = {f.module.rel for f in roots} | {'src/geophires_x/OutputsRich.py'}
+    fns = [f for f in cg.reachable(roots).values() if f.module.rel in writer_modules and f.name not in ('_convert_units', 'read_parameters', '__init__')]
+    ctx.floor('J4', len(fns), 5, 'writer functions between the report and the JSON dump')
+    nsites = 0
+    for f in fns:
+        # locals that may alias an output value
+        alias: Dict[str, ast.AST] = {}
+        changed = True
+        while changed:
+            changed = False
+            for st in ast.walk(f.node):
+                if isinstance(st, ast.Assign) and len(st.targets) == 1 and isinstance(st.targets[0], ast.Name) and st.targets[0].id not in alias:
+                    v = st.value
+                    top = dotted_name(v.func) if isinstance(v, ast.Call) else None
+                    if top in COPYING or isinstance(v, (ast.BinOp, ast.ListComp, ast.List, ast.Dict, ast.Constant, ast.JoinedStr, ast.Compare)):
+                        continue            # a fresh object
+                    mentions = any(isinstance(a, ast.Attribute) and a.attr == 'value' for a in ast.walk(v)) or \
+                        any(isinstance(a, ast.Name) and a.id in alias for a in ast.walk(v))
+                    if mentions:
+                        alias[st.targets[0].id] = st
+                        changed = True
+        for st in ast.walk(f.node):
+            where = f'{f.module.rel}:{getattr(st, "lineno", f.node.lineno)}'
+            if isinstance(st, (ast.Assign, ast.AugAssign)):
+                tg = st.targets if isinstance(st, ast.Assign) else [st.target]
+                for t in tg:
+                    base = t
+                    while isinstance(base, ast.Subscript):
+                        base = base.value
+                    if isinstance(base, ast.Attribute) and base.attr == 'value' and (isinstance(st, ast.AugAssign) or t is not base or True):
+                        nsites += 1
+                        ctx.bad('J4', f'{f.qualname}/store:{norm(t)[:60]}', where,
+                                f'`{norm(st)[:100]}` changes an output value while the report is being written: the JSON dumped afterwards (and any '
+                                f'later section of the report) no longer carries the quantity the report printed')
+                    elif isinstance(base, ast.Name) and base.id in alias and (isinstance(st, ast.AugAssign) or isinstance(t, ast.Subscript)):
+                        nsites += 1
+                        ctx.bad('J4', f'{f.qualname}/in-place:{base.id}', where,
+                                f'`{norm(st)[:100]}` works in place on `{base.id}`, defined as `{norm(alias[base.id].value)[:80]}`, which may share '
+                                f'storage with the output it was taken from: the JSON dumped after the report then holds the modified numbers')
+            if isinstance(st, ast.Call) and isinstance(st.func, ast.Attribute) and st.func.attr in MUTATORS:
+                base = st.func.value
+                while isinstance(base, ast.Subscript):
+                    base = base.value
+                if (isinstance(base, ast.Attribute) and base.attr == 'value') or (isinstance(base, ast.Name) and base.id in alias):
+                    nsites += 1
+                    ctx.bad('J4', f'{f.qualname}/mutating-call:{norm(st.func)[:60]}', where,
+                            f'`{norm(st)[:100]}` mutates an output value (or a local that may share its storage) while the report is written')
+        ctx.ok('J4', f'{f.qualname}/read-only', f'{f.module.rel}:{f.node.lineno}', f'{len(alias)} possibly-aliasing locals, none modified in place')
+    ctx.analysed['writer_functions_checked_read_only'] = len(fns)
+
+
+# ------------------------------------------------------------------------------------------------- X5 result file per request
+LOSSY_PATH_PARTS = ('name', 'stem', 'suffix', 'basename', 'parts')
+
+
+def check_result_file_identity(ctx) -> None:
+    """The client parses the report file named by get_output_file_path().  Two requests with different input files must not share it:
+    the id in the file name is an injective function of the full input path (or a fresh uuid), never of a part of the path."""
+    repo = ctx.repo
+    ci = repo.cls('GeophiresInputParameters')
+    init = ci.methods.get('__init__')
+    gp = ci.methods.get('get_output_file_path')
+    ctx.require(init is not None and gp is not None, 'GeophiresInputParameters.__init__/get_output_file_path not found')
+    rel = init.module.rel
+    # what the output path is built from
+    used = {norm(a) for a in ast.walk(gp.node) if isinstance(a, ast.Attribute) and isinstance(a.value, ast.Name) and a.value.id == 'self'}
+    ctx.require(used, 'get_output_file_path: no attribute of the request in the path (idiom changed)')
+    for attr in sorted(used):
+        defs = [st for st in ast.walk(init.node) if isinstance(st, ast.Assign) and norm(st.targets[0]) == attr]
+        ctx.require(defs, f'{attr} is not assigned in __init__ (idiom changed)')
+        for st in defs:
+            v = st.value
+            lossy = [a for a in ast.walk(v) if (isinstance(a, ast.Attribute) and a.attr in LOSSY_PATH_PARTS) or
+                     (isinstance(a, ast.Call) and (dotted_name(a.func) or '').split('.')[-1] in ('basename', 'splitext'))]
+            fresh = any(isinstance(a, ast.Call) and (dotted_name(a.func) or '').split('.')[-1] in ('uuid4', 'uuid1', 'token_hex', 'mkstemp', 'mkdtemp')
+                        for a in ast.walk(v))
+            full = any(norm(a) == 'self._file_path' for a in ast.walk(v))
+            key = f'GeophiresInputParameters/{attr}/identifies-the-whole-input-path'
+            where = f'{rel}:{st.lineno}'
+            if lossy and not fresh:
+                ctx.bad('X5', key, where,
+                        f'`{norm(st)[:90]}` derives the result-file id from a part of the input path ({norm(lossy[0])[:40]}): two inputs with the '
+                        f'same file name in different directories write and parse the same geophires-result_<id>.out, so the first '
+                        f'result\'s file holds the second case\'s numbers')
+            elif full or fresh:
+                ctx.ok('X5', key, where, 'hash of the full input path' if full else 'fresh unique id')
+            else:
+                raise AnalysisError(f'{attr} = {norm(v)[:60]}: cannot tell whether it identifies the input (idiom changed)')
+
+
 def run(ctx) -> None:
+    ctx.rule('X5', 'the report file the client parses is named after the whole input path (or a fresh id): different inputs never share it')
+    ctx.rule('J4', 'between the report and the JSON dump nothing changes an output value: writers and their helpers are read-only on `.value` and on locals that may share its storage')
     ctx.rule('X1', 'for each of the client\'s result fields the writer templates its predicate can match are pairwise either mutually '
                    'exclusive or identical in value expression, format and unit label (else set.pop() picks by hash seed)')
     ctx.rule('X2', 'after the label the text is `value` or `value unit` under the client\'s collapse-and-split tokenisation; unit '
@@ -722,6 +832,8 @@ def run(ctx) -> None:
     check_adjacent_holes(ctx, templates, 'X3')     # the client splits table rows on whitespace
     check_x4(ctx)
     check_registry(ctx)
+    check_writers_read_only(ctx)
+    check_result_file_identity(ctx)
     ctx.undecided('parsing of arbitrary numeric spellings by _parse_number', 'cell widths overflowing for very large numbers (covered only '
                   'through literal separators, C09 W4)')
     ctx.exhaustive = True
